@@ -72,8 +72,21 @@ func vf10WritePEM(dir, keyType, name string) (certFile, keyFile string, err erro
 }
 
 type vf10OSSLServer struct {
-	cmd  *exec.Cmd
-	addr string
+	cmd    *exec.Cmd
+	addr   string
+	exited chan struct{} // closed when the s_server process has ended
+}
+
+// alive: the s_server this harness started is still running. A free port is found by binding and releasing it, so
+// another process (a parallel shard's s_server) may take it first; ours then exits at once, and whatever answers on
+// that port is not the server configured here.
+func (s *vf10OSSLServer) alive() bool {
+	select {
+	case <-s.exited:
+		return false
+	default:
+		return true
+	}
 }
 
 func vf10StartOpenSSL(bin, dir string, c vf10OSSLConfig, name string) (*vf10OSSLServer, error) {
@@ -99,23 +112,28 @@ func vf10StartOpenSSL(bin, dir string, c vf10OSSLConfig, name string) (*vf10OSSL
 	if err := cmd.Start(); err != nil {
 		return nil, err
 	}
-	s := &vf10OSSLServer{cmd: cmd, addr: fmt.Sprintf("127.0.0.1:%d", port)}
-	for i := 0; i < 100; i++ {
+	s := &vf10OSSLServer{cmd: cmd, addr: fmt.Sprintf("127.0.0.1:%d", port), exited: make(chan struct{})}
+	go func() { cmd.Wait(); close(s.exited) }()
+	for i := 0; i < 100 && s.alive(); i++ {
 		conn, err := net.DialTimeout("tcp", s.addr, 200*time.Millisecond)
 		if err == nil {
 			conn.Close()
+			time.Sleep(60 * time.Millisecond) // a process that lost the port has exited by now
+			if !s.alive() {
+				break
+			}
 			return s, nil
 		}
 		time.Sleep(30 * time.Millisecond)
 	}
 	s.Stop()
-	return nil, fmt.Errorf("s_server did not come up on %s", s.addr)
+	return nil, fmt.Errorf("s_server did not come up on %s (or lost the port to another process)", s.addr)
 }
 
 func (s *vf10OSSLServer) Stop() {
 	if s.cmd != nil && s.cmd.Process != nil {
 		s.cmd.Process.Kill()
-		s.cmd.Wait()
+		<-s.exited
 	}
 }
 
@@ -175,6 +193,9 @@ func vf10OSSLExpect(o *vfOffer, c vf10OSSLConfig) (mustWork bool, why string) {
 }
 
 func TestVerifC10OpenSSL(t *testing.T) {
+	if sh := os.Getenv("VERIF_SHARD"); sh != "" && sh != "0" {
+		t.Skip("deterministic sweep: runs in shard 0 only")
+	}
 	st := vfNewStats(t, "C10")
 	bin, err := exec.LookPath("openssl")
 	if err != nil {
@@ -261,6 +282,11 @@ func TestVerifC10OpenSSL(t *testing.T) {
 				tcp.SetDeadline(time.Now().Add(vfIOTimeout))
 				herr := uc.Handshake()
 				desc := fmt.Sprintf("%s | %s", src, c)
+				if !srv.alive() {
+					tcp.Close()
+					st.Class("openssl-server-gone(no verdict)")
+					return
+				}
 				if herr != nil {
 					tcp.Close()
 					if !must {
